@@ -88,6 +88,7 @@ def set_case(rng, pair, slot):
         case.update(kind='ftab', api=filt + '.filter_tables', meas=rng.choice(FMEAS), filt=filt,
                     op='>=', sc=0)
         case['tok']['rs'] = 1          # C04 assumes a set-returning tokenizer
+        case['prewarm'] = 1 if rng.random() < 0.1 else 0
     else:
         case.update(kind='ftab', api='OVERLAP.filter_tables', meas='OVERLAP', filt='OVERLAP',
                     op=rng.choice(['>=', '>', '=']), sc=rng.choice([0, 1]))
@@ -123,6 +124,7 @@ def str_case(rng, pair, slot):
         case.update(kind='ftab', api=filt + '.filter_tables', meas='EDIT_DISTANCE', filt=filt,
                     op='<=', sc=0)
         case['tok']['rs'] = 0          # C04 assumes bags of q-grams for edit distance
+        case['prewarm'] = 1 if rng.random() < 0.3 else 0   # the filter object was used before in set mode
     case['t'] = rng.choice([[0, 1], [1, 1], [1, 1], [2, 1], [3, 1], [3, 2], [5, 2]])
     case['ae'] = rng.choice([1, 0])
     case['am'] = rng.choice([0, 1])
@@ -143,9 +145,11 @@ def run_case(item):
     obs, result, events, tables = record.execute(case)
     rec = record.abstract(case, obs, result, tables, tid)
     if events and obs['raised'] == '' and (workertrace.eligible(case) or workertrace.eligible_ed(case)
-                                          or workertrace.eligible_oc(case)):
+                                          or workertrace.eligible_oc(case) or workertrace.eligible_suffix(case)):
         try:
-            if workertrace.eligible_oc(case):
+            if workertrace.eligible_suffix(case):
+                rec['_worker'] = workertrace.build_suffix(case, events, tables, tid)
+            elif workertrace.eligible_oc(case):
                 rec['_worker'] = workertrace.build_oc(case, events, tables, tid)
             elif workertrace.eligible_ed(case):
                 w = workertrace.build_ed(case, events, tables, tid)
@@ -206,13 +210,15 @@ def validate_workers(workers, name):
         meas, mode, ae = key
         cfg_path = os.path.join(config.workdir('traces'), '%d-%s-%s-%s-%s.cfg' % (os.getpid(), name, meas, mode, ae))
         with open(cfg_path, 'w') as fh:
-            if meas == 'OC':
+            if meas == 'SUF':
+                fh.write(workertrace.CFG_SUF % (mode, 'TRUE' if ae else 'FALSE'))
+            elif meas == 'OC':
                 fh.write(workertrace.CFG_OC % (mode, 'TRUE' if ae else 'FALSE'))
             elif meas == 'ED':
                 fh.write(workertrace.CFG_ED % (mode, 'TRUE' if ae else 'FALSE'))
             else:
                 fh.write(workertrace.CFG % (meas, 'TRUE' if ae else 'FALSE', mode))
-        verd, st = runner.validate(recs, {'ED': 'TraceWorkersED', 'OC': 'TraceWorkersOC'}.get(meas, 'TraceWorkers'),
+        verd, st = runner.validate(recs, {'ED': 'TraceWorkersED', 'OC': 'TraceWorkersOC', 'SUF': 'TraceWorkersSuffix'}.get(meas, 'TraceWorkers'),
                                    '%s-%s-%s-%s' % (name, meas, mode, ae), batch=1200, cfg_path=cfg_path)
         states += st['states']
         validated += len(recs)
